@@ -29,14 +29,14 @@ type GPTEntry struct {
 func (e GPTEntry) Name() string { return string(utf16.Decode(e.NameUnits)) }
 
 type GPTHeader struct {
-	MyLBA, AltLBA         uint64
+	MyLBA, AltLBA           uint64
 	FirstUsable, LastUsable uint64
-	DiskGUID              string
-	ArrayLBA              uint64
-	Count, EntrySize      uint32
-	ArrayCRC              uint32
-	HeaderCRC             uint32
-	HeaderSize            uint32
+	DiskGUID                string
+	ArrayLBA                uint64
+	Count, EntrySize        uint32
+	ArrayCRC                uint32
+	HeaderCRC               uint32
+	HeaderSize              uint32
 }
 
 // guidText renders a GPT mixed-endian GUID.
@@ -139,13 +139,13 @@ func ParseGPTArray(d Dev, lss int64, h *GPTHeader) ([]GPTEntry, error) {
 
 // GPTView is what an independent, spec-following reader sees on a disk.
 type GPTView struct {
-	Primary, Backup         *GPTHeader
-	PrimaryErr, BackupErr   error
-	PrimaryEntries          []GPTEntry
-	BackupEntries           []GPTEntry
-	ProtectiveOK            bool
-	ProtectiveSectors       uint32
-	ProtectiveErr           string
+	Primary, Backup       *GPTHeader
+	PrimaryErr, BackupErr error
+	PrimaryEntries        []GPTEntry
+	BackupEntries         []GPTEntry
+	ProtectiveOK          bool
+	ProtectiveSectors     uint32
+	ProtectiveErr         string
 }
 
 // ReadGPT parses both copies.
